@@ -35,7 +35,10 @@ func filterNames(all []string, pats []string) []string {
 // classify decides the scenario key of a selection mismatch. The known 0xFF
 // defect only ever LOSES names matched by a pattern whose literal prefix ends
 // in 0xFF; everything else keeps its own key.
-func classify(own string, pats []string, exp, got []string) string {
+func classify(own string, pats []string, exp, got []string, nameOf func(string) string) string {
+	if nameOf == nil {
+		nameOf = func(s string) string { return s }
+	}
 	inExp := map[string]bool{}
 	for _, s := range exp {
 		inExp[s] = true
@@ -70,7 +73,7 @@ func classify(own string, pats []string, exp, got []string) string {
 	for _, s := range exp {
 		if !inGot[s] {
 			missing++
-			if !matchAny(ff, s) {
+			if !matchAny(ff, nameOf(s)) {
 				return own
 			}
 		}
@@ -244,10 +247,24 @@ func (w *worker) globGroup(idx int) {
 			okVals = false
 		}
 	}
-	if !eqStrings(allIDs, sortedNames) || !okVals || !eqStrings(allKeys, wantKeys) || !eqStrings(allHooks, wantHooks) || !eqStrings(allChans, wantChans) {
+	// KEYS * / HOOKS * / CHANS * are pattern commands themselves: `*` matches every name
+	for _, u := range []struct {
+		kind      string
+		cmd       []string
+		got, want []string
+	}{{"keys", base[2], allKeys, wantKeys}, {"hooks", base[3], allHooks, wantHooks}, {"chans", base[4], allChans, wantChans}} {
+		ctx.Eval(1)
+		if !eqStrings(u.got, u.want) {
+			w.violation("match:"+u.kind, fmt.Sprintf("%s lists %q but the names created (all match *) are %q", q(u.cmd), u.got, u.want),
+				map[string]any{"load": load, "query": u.cmd, "expected": u.want, "got": u.got})
+			return
+		}
+	}
+	if !eqStrings(allIDs, sortedNames) || !okVals {
+		// the unfiltered SCAN / SEARCH is the oracle's input; if it is not the loaded
+		// universe the group does not test what it is meant to (C01's business)
 		ctx.Count("glob_groups_universe_differs", 1)
-		ctx.Logf("glob group %d: listed universe differs from the loaded one (ids %d/%d keys %d/%d hooks %d/%d chans %d/%d vals %v)", idx,
-			len(allIDs), len(sortedNames), len(allKeys), len(wantKeys), len(allHooks), len(wantHooks), len(allChans), len(wantChans), okVals)
+		ctx.Logf("glob group %d: listed universe differs from the loaded one (ids %d/%d vals %v)", idx, len(allIDs), len(sortedNames), okVals)
 		return
 	}
 	ctx.Count("glob_groups", 1)
@@ -351,7 +368,11 @@ func (w *worker) globGroup(idx int) {
 				continue
 			}
 			if rp.Kind != ':' || int(rp.Int) != len(twinGot) {
-				w.violation("count:"+strings.TrimSuffix(ck.kind, "-count")+"-match",
+				key := "count:" + strings.TrimSuffix(ck.kind, "-count") + "-match"
+				if ck.vals && len(ck.pats) == 1 && ck.pats[0] == "*" {
+					key = "count:search-shortcut" // MATCH * takes the SEARCH COUNT shortcut
+				}
+				w.violation(key,
 					fmt.Sprintf("%s replies %s but the same query with IDS lists %d", q(ck.cmd), rp.String(), len(twinGot)),
 					replay(map[string]any{"count_query": ck.cmd, "count_reply": rp.String(), "ids_query": checks[ck.twin].cmd, "ids_reply": twinGot}))
 			}
@@ -370,7 +391,7 @@ func (w *worker) globGroup(idx int) {
 		if len(ck.exp) > 0 && len(ck.exp) < ck.uni {
 			ctx.Distinct(shape + "|" + ck.kind)
 			ctx.Count("glob_nontrivial", 1)
-			if idx == 3 && i%17 == 0 {
+			if idx == 3 && i%17 == 0 && i < 17*4 {
 				ctx.Sample(map[string]any{"query": ck.cmd, "selected": len(ck.exp), "of": ck.uni, "expected": ck.exp})
 			}
 		}
@@ -379,7 +400,11 @@ func (w *worker) globGroup(idx int) {
 			if ck.desc { // classify in ascending order
 				exp, g2 = reversed(ck.exp), reversed(got)
 			}
-			key := classify("match:"+ck.kind, ck.pats, exp, g2)
+			var nameOf func(string) string
+			if ck.vals {
+				nameOf = func(id string) string { return valByID[id] }
+			}
+			key := classify("match:"+ck.kind, ck.pats, exp, g2, nameOf)
 			what := "ids"
 			if ck.vals {
 				what = "ids (selected by VALUE)"
@@ -432,7 +457,7 @@ func (w *worker) globGroup(idx int) {
 				ctx.Count("glob_nontrivial", 1)
 			}
 			if !eqStrings(deleted, exp) || rs[0].Kind != ':' || int(rs[0].Int) != len(deleted) || len(remain) != len(curIDs)-len(deleted) {
-				key := classify("match:pdel", one, exp, deleted)
+				key := classify("match:pdel", one, exp, deleted, nil)
 				w.violation(key, fmt.Sprintf("PDEL ki %q replied %s and removed %q; {x : globref(p,x)} is %q; shape %s", p, rs[0].String(), deleted, exp, shape),
 					replay(map[string]any{"query": []string{"PDEL", "ki", p}, "expected_removed": exp, "removed": deleted, "reply": rs[0].String()}))
 			}
@@ -483,7 +508,7 @@ func (w *worker) globGroup(idx int) {
 				ctx.Count("glob_nontrivial", 1)
 			}
 			if !eqStrings(deleted, exp) || rs[0].Kind != ':' || int(rs[0].Int) != len(deleted) || len(remain) != len(cur)-len(deleted) || !eqStrings(others, oth) {
-				key := classify("match:"+strings.ToLower(cmdName), one, exp, deleted)
+				key := classify("match:"+strings.ToLower(cmdName), one, exp, deleted, nil)
 				if !eqStrings(others, oth) {
 					key = "match:" + strings.ToLower(cmdName) + "-other-kind"
 				}
